@@ -1,8 +1,10 @@
 import YakModel.Proofs.ScanLanding
 import YakModel.Proofs.ScanExamples
+import YakModel.Proofs.ScanNodes
 /-!
 # The lemmas the property files C03 and C05 refer to
 
 `insert_bumps_landing`, `get_miss_reports_landing` (ScanLanding), `D2_counterexample`,
-`D5_counterexample` (ScanExamples).
+`D5_counterexample` (ScanExamples), `scan_status_ok`, `scan_spec_fwd` (ScanSpec),
+`scan_inf_ignores_key`, `scan_nodes_nonempty` (ScanNodes).
 -/
